@@ -863,12 +863,21 @@ pub fn check_queries(g: &G, m: &Model, names: &[String], order_known: bool, prop
 // snapshot invariants (C02) and traversal lists (C03)
 
 pub fn check_snapshot_indexes(g: &G, m: &Model, order_known: bool, prop: &'static str) -> u64 {
+    check_snapshot_indexes_sel(g, m, order_known, prop, false)
+}
+
+/// `adjacency_only`: only I3 (the neighbour sets by name and by position that the algorithms
+/// traverse) - used by the C03 monitor
+pub fn check_snapshot_indexes_sel(g: &G, m: &Model, order_known: bool, prop: &'static str, adjacency_only: bool) -> u64 {
     let snap = g.verif_snapshot();
     let d = m.specs.directed;
     let kind = kind_class(g);
     let mut fails: Vec<(String, Value)> = vec![];
     // I1 node indexes
     let nv: Vec<(String, Option<i32>)> = snap.nodes_vec.clone();
+    if adjacency_only && nv != m.nodes {
+        return 0; // node list itself is off: C01/C02's business
+    }
     if nv != m.nodes {
         fails.push(("I1:nodes_vec-differs-from-node-list".into(), json!({"got": format!("{:?}", nv)})));
     }
@@ -985,6 +994,9 @@ pub fn check_snapshot_indexes(g: &G, m: &Model, order_known: bool, prop: &'stati
     }
     let n = fails.len();
     for (class, detail) in fails {
+        if adjacency_only && !class.starts_with("I3:") {
+            continue;
+        }
         ctx::violation(
             &format!("{}|snapshot|{}|{}", prop, class, kind),
             &format!("private indexes disagree: {}", class),
@@ -1096,5 +1108,8 @@ pub fn quiescent_checks(lock: &mut Lock, mon: &Monitors) {
     }
     if mon.traversal {
         ctx::eval(check_traversal_lists(&lock.g, &m, mon.prop));
+        if !mon.queries {
+            ctx::eval(check_snapshot_indexes_sel(&lock.g, &m, lock.order_known, mon.prop, true));
+        }
     }
 }
